@@ -170,6 +170,63 @@ pub fn run(ctx: &mut Ctx) {
                         Err(e) => viols.push(Viol::new("unexpected_error", format!("{} x{} width {}: {}", pair, nc, w, e))),
                     }
                 }
+                // ... and through windows: the source a CroppedImageMut (read side of a mutable view) or a CroppedImage at an
+                // off-diagonal position of a bigger image, the destination a CroppedImageMut inside its own parent
+                {
+                    use firv::containers::{image_with_window, window_of_image};
+                    let m = m.min(512);
+                    let npx = (m + nc - 1) / nc;
+                    let iw = w.max(2);
+                    let ih = (npx + iw - 1) / iw;
+                    let plain = convert_w(s, d, nc, &vals[..m], iw);
+                    let (spt, dpt) = (kind_pt(s, nc), kind_pt(d, nc));
+                    let mut sbytes = vec![0u8; iw * ih * spt.size()];
+                    for (i, &v) in vals[..m].iter().enumerate() {
+                        match s {
+                            CompKind::U8 => sbytes[i] = v as u8,
+                            CompKind::U16 => sbytes[i * 2..i * 2 + 2].copy_from_slice(&(v as u16).to_ne_bytes()),
+                            CompKind::I32 => sbytes[i * 4..i * 4 + 4].copy_from_slice(&(v as i32).to_ne_bytes()),
+                            CompKind::F32 => sbytes[i * 4..i * 4 + 4].copy_from_slice(&(v as f32).to_ne_bytes()),
+                        }
+                    }
+                    let (iw32, ih32) = (iw as u32, ih as u32);
+                    let mut sparent = image_with_window(spt, &sbytes, iw32, ih32, 3, 1, iw32 + 4, ih32 + 3, 0x5a);
+                    let mut dparent = image_with_window(dpt, &vec![0u8; iw * ih * dpt.size()], iw32, ih32, 1, 2, iw32 + 2, ih32 + 5, 0xa5);
+                    let res = {
+                        let mut dwin = CroppedImageMut::new(&mut dparent, 1, 2, iw32, ih32).unwrap();
+                        if blk % 2 == 0 {
+                            let swin = CroppedImageMut::new(&mut sparent, 3, 1, iw32, ih32).unwrap();
+                            fr::change_type_of_pixel_components(&swin, &mut dwin)
+                        } else {
+                            let swin = CroppedImage::new(&sparent, 3, 1, iw32, ih32).unwrap();
+                            fr::change_type_of_pixel_components(&swin, &mut dwin)
+                        }
+                    };
+                    stats.count("conversions_through_windows", 1);
+                    match (res, plain) {
+                        (Ok(()), Ok(plain)) => {
+                            let (wb, clean) = window_of_image(&dparent, iw32, ih32, 1, 2, 0xa5);
+                            let got: Vec<f64> = (0..m)
+                                .map(|i| match d {
+                                    CompKind::U8 => wb[i] as f64,
+                                    CompKind::U16 => u16::from_ne_bytes([wb[i * 2], wb[i * 2 + 1]]) as f64,
+                                    CompKind::I32 => i32::from_ne_bytes([wb[i * 4], wb[i * 4 + 1], wb[i * 4 + 2], wb[i * 4 + 3]]) as f64,
+                                    CompKind::F32 => f32::from_ne_bytes([wb[i * 4], wb[i * 4 + 1], wb[i * 4 + 2], wb[i * 4 + 3]]) as f64,
+                                })
+                                .collect();
+                            if let Some(i) = (0..m).find(|&i| got[i].to_bits() != plain[i].to_bits() && !(got[i].is_nan() && plain[i].is_nan())) {
+                                viols.push(Viol::new("depends_on_image_shape", format!("{} x{}: value {:e} converts to {:e} in a plain image and to {:e} through cropped windows (source {})", pair, nc, vals[i], plain[i], got[i], if blk % 2 == 0 { "CroppedImageMut" } else { "CroppedImage" })).sig(json!({"pair": pair})));
+                            } else if !clean {
+                                viols.push(Viol::new("depends_on_image_shape", format!("{} x{}: the conversion into a window changed the parent outside the window", pair, nc)).sig(json!({"pair": pair})));
+                            }
+                        }
+                        (a, b) => {
+                            if a.is_ok() != b.is_ok() {
+                                viols.push(Viol::new("unexpected_error", format!("{} x{} through windows: {:?} vs plain {:?}", pair, nc, a, b.map(|_| ()))));
+                            }
+                        }
+                    }
+                }
             }
             // monotone non-decreasing
             for i in 1..vals.len() {
